@@ -193,7 +193,7 @@ def exhaustive_tasks(thorough):
                 tasks.append((cfg, [(m, 0, 0) for m in range(1 << (n * mi))]))
                 space.append(cfg)
     if thorough:
-        for nl, pt, jac, a2d in [(1, None, False, False), (2, 'pfasst_burnin', True, False), (3, 'pfasst_burnin', True, True)]:
+        for nl, pt, jac, a2d in [(2, 'pfasst_burnin', True, False)]:
             cfg = (4, nl, 4, tuple(level_sweeps(nl, 1)), pt, jac, a2d, 4)
             allm = [(m, 0, 0) for m in range(1 << 16)]
             for i in range(0, len(allm), 4096):
@@ -380,7 +380,7 @@ def run(ck):
         'description': ('all 2^(num_procs*maxiter) converged-tables for num_procs<=%d, levels<=%d, maxiter<=%d, nsweeps[0]<=2 '
                         'x predictor types x mssdc_jac x all_to_done%s; all (converged, force_done, force_continue) tables for '
                         'num_procs<=2, maxiter=2%s'
-                        % ((4, 3, 4, ' (16-bit tables (4 steps x 4 iterations) on 3 configurations, 3-level configurations up to 9-bit tables)', '') if thorough else
+                        % ((4, 3, 4, ' (16-bit tables (4 steps x 4 iterations) on 1 configuration, 3-level configurations up to 9-bit tables)', '') if thorough else
                            (3, 2, 3, '', ' (num_procs=2: at most one force table non-zero)'))),
         'runs': sum(len(t[1]) for t in ex_tasks + f_tasks)}
     ck.cov['distinct_decision_paths_read_by_impl'] = npaths
